@@ -159,6 +159,9 @@ def p_C16(l):
     if l.kind == "obs": return "obs %d" % l.inst + fields(l, ["active", "plan", "prev"])
     return None
 
+def p_C17(l):
+    return l.raw
+
 def p_all(l):
     return l.raw
 
